@@ -87,7 +87,7 @@ def run(ctx):
     if not model:
         ctx.tie(False)
     else:
-        nch = 12 if ctx.tier == "quick" else 16
+        nch = 12 if ctx.tier == "quick" else 32
         per = max(1, (len(cases) + nch - 1) // nch)
         jobs, offs = [], []
         for off in range(0, len(cases), per):
@@ -129,7 +129,7 @@ def run(ctx):
         "distinct_nontrivial": len(keys),
         "rule": "objects: payloads cut by the real SDK slicer with limit 64..4096 into 2..24 children (exact multiples, limit+1, random), stored as "
                 "V1/V2 chain with/without link object; EC objects k=1..6, m=1..3 with 0..m random parts removed (incl. empty payload and payloads "
-                "shorter than k); plus, for rules 2/1, 3/2, 4/2 (quick; 10 rules up to 8/3 in the thorough tier), every single part removed, every data part with a range stream "
+                "shorter than k); plus, for rules 2/1, 3/2, 4/2 (quick; 10 rules up to 6/3 in the thorough tier), every single part removed, every data part with a range stream "
                 "breaking after n bytes, and pairs of losses, each with ranges for every (first part, last part) pair starting strictly inside "
                 "the first part (recovery branch: hist_ec_recovery). requests per object: whole GET + ranges in all modes (offset/length via Get and GetRange, bounds, from, suffix) "
                 "with offsets at child/part boundaries +-2, 0, len, random, and hostile near-2^64 values. Non-trivial = satisfiable range request "
